@@ -441,15 +441,13 @@ Qed.
 Lemma recall_pt ps c : rec1 (z2q (tp c ps)) (z2q (support ps c)) = recall_c ps c.
 Proof. unfold recall_c, support. apply rec1_z. pose proof (tp_nonneg c ps). pose proof (fn_nonneg c ps). lia. Qed.
 
-Definition all_present (n : nat) (b : mcbatch) : Prop := forallb (present (pairs b)) (classes n) = true.
-
-(* micro, macro, per-class: algo = textbook for every aligned input; weighted: only when no class is absent *)
+(* micro, macro, weighted, per-class: algo = textbook *)
 Theorem mcrec_algo_eq_spec a nc b :
-  aligned b -> (a = Weighted -> targets_in (ncls nc) b /\ all_present (ncls nc) b) ->
+  aligned b -> (a = Weighted -> targets_in (ncls nc) b) ->
   fn_of mcrec_spec (a, nc) b = mcrec_textbook (a, nc) b.
 Proof.
   intros Hal Hv. unfold fn_of, mcrec_textbook, prf_spec_of. cbn [agamma abeta mcrec_spec fst snd].
-  rewrite <- pairs_eq. unfold rec_beta, rec_gamma. cbn [fst snd]. unfold all_present in Hv. set (ps := pairs b) in *.
+  rewrite <- pairs_eq. unfold rec_beta, rec_gamma. cbn [fst snd]. set (ps := pairs b) in *.
   destruct a; cbn [is_micro].
   - f_equal. cbn [fsc nget narr nth nsc zsc]. unfold micro_spec, n_correct. rewrite <- (lenZ_pairs b Hal). fold ps.
     apply rec1_z. intros H0. pose proof (cnt_le_len (fun py : Z * Z => fst py =? snd py) ps) as H1.
@@ -459,29 +457,19 @@ Proof.
     rewrite E0, E1, E2, rows3, filter_map, map_map. cbn [fst snd]. unfold macro_of. f_equal.
     rewrite (filter_ext _ (present ps)) by (intros c; apply present_mask_rec).
     apply map_ext. intros c. apply recall_pt.
-  - destruct (Hv eq_refl) as [Hin Hall]. rewrite vec_support, vec_npred, vec_tp.
+  - f_equal. rewrite vec_support, vec_npred, vec_tp.
     destruct (fld_zvec3 (map (support ps) (classes (ncls nc))) (map (fun c => tp c ps + fp c ps) (classes (ncls nc))) (map (fun c => tp c ps) (classes (ncls nc)))) as [E0 [E1 E2]].
-    rewrite E0, E1, E2, rows3.
-    assert (Hmask : forallb (fun r : Qc * (Qc * Qc) => nz (fst r) || nz (fst (snd r)))
-              (map (fun c => (z2q (support ps c), (z2q (tp c ps + fp c ps), z2q (tp c ps)))) (classes (ncls nc))) = true).
-    { rewrite forallb_forall. intros r Hr. apply in_map_iff in Hr as [c [<- Hc]]. cbn [fst snd]. rewrite present_mask_rec.
-      rewrite forallb_forall in Hall. apply Hall. exact Hc. }
-    rewrite Hmask. rewrite (filter_all _ _ Hmask). f_equal.
-    rewrite !map_map, map2_map. cbn [fst snd]. unfold weighted_of. rewrite (filter_all _ _ Hall).
-    rewrite <- (map_map (support ps) z2q), qsum_z2q, sum_support by (apply forallb_snd_combine, Hin).
-    f_equal. apply map_ext. intros c. rewrite recall_pt. f_equal. apply qdivx_z.
+    rewrite E0, E1, E2, rows3, filter_map, !map_map, map2_map. cbn [fst snd]. unfold weighted_of.
+    rewrite (filter_ext _ (present ps)) by (intros c; apply present_mask_rec). f_equal.
+    rewrite <- (map_map (support ps) z2q), qsum_z2q, sumZ_filter_zero, sum_support by
+      (try (apply forallb_snd_combine, Hv; reflexivity); intros c Hc; unfold present in Hc; apply negb_false_iff, Z.eqb_eq in Hc;
+       unfold support; pose proof (tp_nonneg c ps); pose proof (fp_nonneg c ps); pose proof (fn_nonneg c ps); lia).
+    apply map_ext. intros c. rewrite recall_pt. f_equal. apply qdivx_z.
     intros H0. pose proof (support_le c ps). unfold support in *. pose proof (tp_nonneg c ps). pose proof (fn_nonneg c ps). lia.
   - f_equal. rewrite vec_support, vec_npred, vec_tp.
     destruct (fld_zvec3 (map (support ps) (classes (ncls nc))) (map (fun c => tp c ps + fp c ps) (classes (ncls nc))) (map (fun c => tp c ps) (classes (ncls nc)))) as [E0 [E1 E2]].
     rewrite E0, E2, rows2, map_map. cbn [fst snd]. apply map_ext. intros c. apply recall_pt.
 Qed.
-
-(* the defect: a valid input on which weighted recall raises instead of returning the textbook value *)
-Theorem mcrec_weighted_total_refuted :
-  exists b, avalid mcrec_spec (Weighted, Some 3%nat) b = true /\
-            is_err (fn_of mcrec_spec (Weighted, Some 3%nat) b) = true /\
-            mcrec_textbook (Weighted, Some 3%nat) b = RS (Fin (z2q 1)).
-Proof. exists (Labels [0], [0]). vm_compute. auto. Qed.
 
 (* ------------------------------------------------------------------------------------------ *)
 (* F1                                                                                          *)
@@ -563,7 +551,7 @@ Proof.
 Qed.
 
 (* ------------------------------------------------------------------------------------------ *)
-(* total_on_valid: compute never raises (the one exception is weighted recall, see above)      *)
+(* total_on_valid: compute never raises                                                        *)
 (* ------------------------------------------------------------------------------------------ *)
 Lemma acc_gamma_total a s : is_err (acc_gamma_avg a s) = false.
 Proof. destruct a; reflexivity. Qed.
@@ -573,8 +561,8 @@ Lemma f1_gamma_total c s : is_err (f1_gamma c s) = false.
 Proof. destruct c as [[| | |] nc]; reflexivity. Qed.
 Lemma cm_compute_total nm m : is_err (cm_compute nm m) = false.
 Proof. destruct nm; reflexivity. Qed.
-Lemma rec_gamma_total_partial c s : fst c <> Weighted -> is_err (rec_gamma c s) = false.
-Proof. destruct c as [[| | |] nc]; intros H; try reflexivity. exfalso. apply H. reflexivity. Qed.
+Lemma rec_gamma_total c s : is_err (rec_gamma c s) = false.
+Proof. destruct c as [[| | |] nc]; reflexivity. Qed.
 
 (* ------------------------------------------------------------------------------------------ *)
 (* Binary forms (threshold, then count the positive class)                                     *)
